@@ -123,6 +123,9 @@ CASES = [
     ("minerals-postfix-stringified", ["C17"], "minerals.py", "            if postfix is not None:\n                _log.info(\"saving Mineral to file %s (postfix: %s)\", filename, postfix)", "            if postfix is not None:\n                postfix = _io.stringify(postfix)\n                _log.info(\"saving Mineral to file %s (postfix: %s)\", filename, postfix)", M),
     ("minerals-voigt-skip-zero-mispaired", ["C10"], "minerals.py", "            for n in range(n_grains):\n                average_tensors[i] += _tensors.elastic_tensor_to_voigt(\n                    _tensors.rotate(\n                        phase_tensors[mineral.phase],\n                        mineral.orientations[i][n, ...].transpose(),\n                    )\n                    * mineral.fractions[i][n]",
      "            fractions = mineral.fractions[i]\n            orientations = mineral.orientations[i][fractions > 0]\n            for n in range(len(orientations)):\n                average_tensors[i] += _tensors.elastic_tensor_to_voigt(\n                    _tensors.rotate(\n                        phase_tensors[mineral.phase],\n                        orientations[n, ...].transpose(),\n                    )\n                    * fractions[n]", M),
+    ("io-loglevel-default-dropped", ["C19"], "io.py", "    _output[\"log_level\"] = _output.get(\"log_level\", \"WARNING\")", "    if \"log_level\" in _output:\n        _output[\"log_level\"] = str(_output[\"log_level\"])", M),
+    ("io-fabric-lowercase", ["C19"], "io.py", "_core.MineralFabric, \"olivine_\" + _params[\"initial_olivine_fabric\"]", "_core.MineralFabric, \"olivine_\" + _params[\"initial_olivine_fabric\"].lower()", M),
+    ("io-coefficients-too-many-accepted", ["C19"], "io.py", "    if n_provided != n_required:", "    if n_provided < n_required - 5:", M),
     # ---------------- benign refactors (must stay silent)
     ("benign-rename-locals", ["C02", "C03"], "core.py", "    invariants = np.zeros(4)\n    for i in range(3):\n        for j in range(3):\n            # (010)[100]\n            invariants[0] +=",
      "    invariants = np.zeros(4)\n    for i in range(3):\n        for j in range(3):\n            # slip system (010)[100]\n            invariants[0] +=", B),
@@ -155,6 +158,12 @@ CASES = [
     ("benign-corner-factor", ["C18"], "velocity.py", "    prefactor = 4 * plate_speed / (np.pi * (h**2 + v**2) ** 2)", "    r2 = h**2 + v**2\n    prefactor = 4 * plate_speed / (np.pi * r2 * r2)", B),
     ("benign-config-local", ["C19"], "io.py", "    n_provided = len(_params[\"disl_coefficients\"])", "    coeffs = _params[\"disl_coefficients\"]\n    n_provided = len(coeffs)", B),
     ("benign-gbs-where", ["C09", "C01"], "utils.py", "    fractions[mask] = gbs_threshold / n_grains\n", "    fractions[:] = np.where(mask, gbs_threshold / n_grains, fractions)\n", B),
+    ("benign-params-defaults-update", ["C19"], "io.py", "    for key, default in _core.DefaultParams().as_dict().items():\n        _params[key] = _params.get(key, default)", "    defaults = _core.DefaultParams().as_dict()\n    for key in defaults:\n        if key not in _params:\n            _params[key] = defaults[key]", B),
+    ("benign-params-checks-swapped", ["C19"], "io.py", "    # Make sure all mineral phases are accounted for and valid.\n    if len(_params[\"phase_assemblage\"]) != len(_params[\"phase_fractions\"]):", "    n_phases = len(_params[\"phase_assemblage\"])\n    if n_phases != len(_params[\"phase_fractions\"]):", B),
+    ("benign-fabric-handler-wider", ["C19"], "io.py", "    except (AttributeError, TypeError):\n        raise _err.ConfigError(\n            f\"invalid initial olivine fabric", "    except (AttributeError, TypeError, ValueError):\n        raise _err.ConfigError(\n            f\"invalid initial olivine fabric", B),
+    ("benign-coefficients-names", ["C19"], "io.py", "    if n_provided != n_required:", "    if not (n_provided == n_required):", B),
+    ("benign-output-loglevel-setdefault", ["C19"], "io.py", "    _output[\"log_level\"] = _output.get(\"log_level\", \"WARNING\")", "    _output.setdefault(\"log_level\", \"WARNING\")", B),
+    ("benign-output-paths-if", ["C19"], "io.py", "    _output[\"paths\"] = _output.get(\"paths\", None)", "    if \"paths\" not in _output:\n        _output[\"paths\"] = None", B),
     ("benign-writer-missing-used", ["C16"], "io.py", "row.append(schema[\"missing\"])", "row.append(missing_marker)", B),
     ("benign-yaml-quoter-renamed", ["C16"], "io.py", "_yaml_scalar", "_quote_yaml", B),
     ("benign-save-except-tuple", ["C16"], "io.py", "    except ValueError:\n        path.unlink(missing_ok=True)", "    except (ValueError,):\n        path.unlink(missing_ok=True)", B),
